@@ -252,6 +252,13 @@ def main():
                 continue
             seen.add((repr(a), repr(b)))
             add_mk(a, b, None, None, True, cls, fa_n)
+    # small signed integers, all pairs, one after the other in this process (CPython: hash(-1) == hash(-2), so
+    # coordinates that differ only in a -1 / -2 ordinate have equal hashes although they are different points:
+    # anything keyed by the hash alone - a cache of unit vectors, say - confuses them once both have been seen)
+    smalls = [-2, -1, 0, 1, 2, -2.0, -1.0]
+    for la in [-2, -1, 0, 50, -1.0, -2.0]:
+        for lo in smalls:
+            add_mk(lo, la, None, None, True, 'small-signed-integers', 'int' if isinstance(lo, int) and isinstance(la, int) else 'float')
     # a few textual forms float() accepts
     for s_lo, s_la in [('1e2', '9.1e1'), (' 190 ', '+45.0'), ('-0.0', '-90.000'), ('1_80', '9_0'), ('180.', '.5e3'),
                        ('-1E+3', '1E-3')]:
